@@ -2,7 +2,7 @@
 """re-run all checks on selftest/limitations/*; variants that are now silent move to selftest/benign/"""
 import json, os, shutil, subprocess, tempfile
 V = os.path.dirname(os.path.dirname(os.path.abspath(__file__)))
-ALL = ["C01", "C02", "C03", "C04", "C05", "C06", "C07", "C08", "C09", "C10", "C11", "C12", "C13", "C14", "C15", "C16"]
+ALL = ["C01", "C02", "C03", "C04", "C05", "C06", "C07", "C08", "C09", "C10", "C11", "C12", "C13", "C15", "C16"]
 base = os.path.join(V, "selftest", "limitations")
 for name in sorted(os.listdir(base)):
     d = os.path.join(base, name)
